@@ -551,11 +551,16 @@ def main(argv):
     known_lines = []
     if broken:
         log("NOT VERIFIED: " + "; ".join("%s: %s" % (s, d[:300]) for s, d in broken))
-        # a disagreement on a family whose outputs the theorems pin down completely IS a failing input:
-        # the model's answer is proved to be what the property demands on that input
-        found = [{"case": m["case"], "profile": m["profile"], "family": m["family"],
-                  "what": "implementation output differs from the output of the model, which the property's theorems pin down on this input",
-                  "expected": m["model"], "actual": m["implementation"]} for m in mismatches if m.get("pinned")]
+        # a disagreement on a family whose outputs the theorems pin down completely IS a failing input: the model's
+        # answer is proved to be what the property demands on that input. That argument needs the theorems to hold for the
+        # CURRENT data, so it is used only when every proof obligation of the property still checks; when a proof broke as
+        # well, the model's answer is no longer known to be right and the searches below must produce the input.
+        proofs_intact = not any(st in ("proof", "assumptions", "gate", "coqchk") for st, _ in broken)
+        found = []
+        if proofs_intact:
+            found = [{"case": m["case"], "profile": m["profile"], "family": m["family"],
+                      "what": "implementation output differs from the output of the model, which the property's theorems pin down on this input",
+                      "expected": m["model"], "actual": m["implementation"]} for m in mismatches if m.get("pinned")]
         if not found and any(st == "proof" for st, _ in broken):
             try:
                 found += model_search(prop, bins, build_model())
